@@ -326,6 +326,43 @@ func c06BlankFields(c *Ctx) {
 	}
 }
 
+// an add that fails while the role links are built (a rule too short for the role definition in
+// the batch) never takes away rules that were listed BEFORE the call: Ex batches contain such
+// rules on purpose.
+func c06FailedAddKeepsListed(c *Ctx) {
+	for _, how := range []string{"ex", "plain", "single"} {
+		for _, pos := range []int{0, 1, 2} {
+			mm, _ := model.NewModelFromString(machRBAC.Text)
+			e, _ := casbin.NewEnforcer(mm)
+			_, _ = e.AddGroupingPolicy("alice", "admin")
+			_, _ = e.AddGroupingPolicy("bob", "staff")
+			batch := [][]string{{"alice", "admin"}, {"carol", "admin"}}
+			var b2 [][]string
+			b2 = append(b2, batch[:pos]...)
+			b2 = append(b2, []string{"dave"})
+			b2 = append(b2, batch[pos:]...)
+			var ok bool
+			var err error
+			switch how {
+			case "ex":
+				ok, err = e.AddGroupingPoliciesEx(b2)
+			case "plain":
+				ok, err = e.AddGroupingPolicies(b2)
+			case "single":
+				ok, err = e.AddGroupingPolicy("dave")
+			}
+			for _, r := range [][]string{{"alice", "admin"}, {"bob", "staff"}} {
+				has, _ := e.HasGroupingPolicy(toIface(r)...)
+				gp, _ := e.GetGroupingPolicy()
+				if !has || !containsRule(gp, r) {
+					c.Direct(fmt.Sprintf("c06.failed-add.%s.%d", how, pos), fmt.Sprintf("the add of %v reported (%v, %v) and the rule %v, listed before the call, is gone", b2, ok, err, r), fmt.Sprintf("listed=%v", gp))
+				}
+			}
+			c.Count("failed-add-keeps-listed")
+		}
+	}
+}
+
 func init() {
 	register("C06", func(c *Ctx) {
 		c.Rule = "state-space enumeration: every reachable ordered rule list over a 4-rule universe x every operation of a ~75-op alphabet (Add/Remove/Update/RemoveFiltered, batch and Ex variants, Clear), for p2 (arity 2), p (arity 3) and g; plus seeded random histories over fields with separator-like characters (; | space quote NUL $$, no comma). Distinct = (policy type, state, op) or history; non-trivial = the history changes the listed rules at least once. Additions: targets g2 and the priority model (insertion in front of listed rules; preceded by a re-sorting load); identity and chain batch updates compared with the model outside the F08 guard; auto-save-on histories of the shared generator incl. UpdateFilteredPolicies (new rules may equal rules the filter selects); re-ordering loads (priority, subject hierarchy) followed by HasPolicy / RemovePolicy / UpdatePolicy on every slot; a cap on the number of reachable listings."
@@ -635,6 +672,7 @@ func init() {
 		c06OrderingLoads(c)
 		c06Aliasing(c)
 		c06BlankFields(c)
+		c06FailedAddKeepsListed(c)
 		c06Probes(c)
 	})
 }
